@@ -7,7 +7,7 @@ sys.path.insert(0, os.environ.get("VERIF_REPO", "/repo"))
 
 
 def main(argv):
-    if os.environ.get("PYTHONHASHSEED") != "0":
+    if os.environ.get("PYTHONHASHSEED") != "0" and not os.environ.get("VERIF_ALLOW_HASHSEED"):
         os.environ["PYTHONHASHSEED"] = "0"
         os.execv(sys.executable, [sys.executable] + sys.argv)
     if not argv:
@@ -61,6 +61,12 @@ def main(argv):
         from harness.selftest import selftest_main
 
         return selftest_main(argv[1:])
+    if cmd == "selftest-worker":
+        # fresh interpreter (possibly another PYTHONHASHSEED): run programs from a file, print digests
+        runctx.prepare_parent()
+        from harness.selftest import worker_main
+
+        return worker_main(argv[1:])
     if cmd == "mutants":
         from harness.mutants import mutants_main
 
